@@ -793,6 +793,9 @@ R SPxScaler<R>::scaleLower(const SPxLPBase<R>& lp, int col, R lower) const
 
    const DataArray < int >& colscaleExp = lp.LPColSetBase<R>::scaleExp;
 
+   if(lower <= R(-infinity))
+      return lower;
+
    return spxLdexp(lower, -colscaleExp[col]);
 }
 
@@ -804,6 +807,9 @@ R SPxScaler<R>::scaleUpper(const SPxLPBase<R>& lp, int col, R upper) const
    assert(col >= 0);
 
    const DataArray < int >& colscaleExp = lp.LPColSetBase<R>::scaleExp;
+
+   if(upper >= R(infinity))
+      return upper;
 
    return spxLdexp(upper, -colscaleExp[col]);
 }
@@ -817,6 +823,9 @@ R SPxScaler<R>::scaleLhs(const SPxLPBase<R>& lp, int row, R lhs) const
 
    const DataArray < int >& rowscaleExp = lp.LPRowSetBase<R>::scaleExp;
 
+   if(lhs <= R(-infinity))
+      return lhs;
+
    return spxLdexp(lhs, rowscaleExp[row]);
 }
 
@@ -828,6 +837,9 @@ R SPxScaler<R>::scaleRhs(const SPxLPBase<R>& lp, int row, R rhs) const
    assert(row >= 0);
 
    const DataArray < int >& rowscaleExp = lp.LPRowSetBase<R>::scaleExp;
+
+   if(rhs >= R(infinity))
+      return rhs;
 
    return spxLdexp(rhs, rowscaleExp[row]);
 }
